@@ -295,9 +295,9 @@ func (g *Gen) Next() []string {
 		return []string{"JGET", k, id, g.pick([]string{"p", "q", "type"})}
 	case 32:
 		if g.Rich && r.Intn(2) == 0 {
-			return []string{"SCAN", k, "MATCH", g.pick([]string{`a\*`, `a\?`, `\[x\]`, `a\\b`, `[a-b]?`, `*\**`}), "IDS"}
+			return []string{"SCAN", k, "MATCH", g.pick([]string{`a\*`, `a\?`, `\[x\]`, `a\\b`, `[a-b]?`, `*\**`}), g.pick([]string{"IDS", "IDS", "COUNT"})}
 		}
-		return []string{"SCAN", k, "MATCH", g.pick([]string{"a*", "*", "?", "b"}), "IDS"}
+		return []string{"SCAN", k, "MATCH", g.pick([]string{"a*", "*", "?", "b"}), g.pick([]string{"IDS", "IDS", "COUNT"})}
 	default:
 		return []string{"GET", k, id, "WITHFIELDS"}
 	}
